@@ -35,6 +35,9 @@ func (s *UnregisteredSEI) Payload() []byte {
 
 // DecodeUserDataUnregisteredSEI decodes an unregistered SEI message (type 5).
 func DecodeUserDataUnregisteredSEI(sd *SEIData) (SEIMessage, error) {
+	if len(sd.payload) < 16 {
+		return nil, fmt.Errorf("user_data_unregistered payload size %d is less than 16", len(sd.payload))
+	}
 	uuid := sd.payload[:16]
 	return NewUnregisteredSEI(sd, uuid), nil
 }
